@@ -1,13 +1,14 @@
 ------------------------------- MODULE MCBtpe -------------------------------
 (* Prints the BTPE anchors of BtpeTable as cases for the harness *)
-EXTENDS BtpeTable, Sequences, Integers, TLC, Json
+EXTENDS BtpeTable, Sequences, Integers, TLC, Json, IOUtils
+TT == IF "TIER" \in DOMAIN IOEnv /\ IOEnv.TIER = "thorough" THEN BTabT ELSE BTab
 VARIABLE c
 Init == c = 0
-Next == /\ c < Len(BTab) /\ c' = c + 1
-        /\ PrintT(<<"CASE", ToJson([id |-> BTab[c'].id, n |-> BTab[c'].n, p |-> BTab[c'].p,
-                                     r2 |-> [k \in 1..Len(BTab[c'].r2) |-> BTab[c'].r2[k].w1],
-                                     r1 |-> [k \in 1..Len(BTab[c'].r1) |-> [w1 |-> BTab[c'].r1[k].w1,
-                                                                              js |-> [i \in 1..Len(BTab[c'].r1[k].js) |-> BTab[c'].r1[k].js[i].j]]],
-                                     rt |-> [k \in 1..Len(BTab[c'].rt) |-> [w1 |-> BTab[c'].rt[k].w1, probe |-> BTab[c'].rt[k].probe, y |-> BTab[c'].rt[k].y]]])>>)
+Next == /\ c < Len(TT) /\ c' = c + 1
+        /\ PrintT(<<"CASE", ToJson([id |-> TT[c'].id, n |-> TT[c'].n, p |-> TT[c'].p,
+                                     r2 |-> [k \in 1..Len(TT[c'].r2) |-> TT[c'].r2[k].w1],
+                                     r1 |-> [k \in 1..Len(TT[c'].r1) |-> [w1 |-> TT[c'].r1[k].w1,
+                                                                              js |-> [i \in 1..Len(TT[c'].r1[k].js) |-> TT[c'].r1[k].js[i].j]]],
+                                     rt |-> [k \in 1..Len(TT[c'].rt) |-> [w1 |-> TT[c'].rt[k].w1, probe |-> TT[c'].rt[k].probe, y |-> TT[c'].rt[k].y]]])>>)
 Spec == Init /\ [][Next]_c
 =============================================================================
